@@ -70,6 +70,8 @@ enum
   W_DESTROY,
   FV_MAKE,
   FA_SIZED,
+  OA_MOVE_ASSIGN,  // appended (round five): the numbers of the older kinds are part of saved replay files
+  OA_MOVE_CTOR,
   NKINDS
 };
 enum
@@ -439,6 +441,50 @@ struct Harness
       ctx.label("copy-ctor");
       break;
     }
+    case OA_MOVE_ASSIGN:
+    case OA_MOVE_CTOR: {
+      // b = std::move(a) / OwnedArray c(std::move(a)) from a NAMED array that stays alive.  Today OwnedArray has no move
+      // operations and a move is a deep copy; any correct move implementation is accepted: the target holds the source's
+      // old contents, the source is left valid - size(), data(), at() and iteration agree with each other (verifyAll, its
+      // model being whatever the source reports right after the move, each element read through at() under ASan) - and the
+      // two own separate storage.
+      a = pickW(a, [](W &q) { return q.kind == K_OWNED; });
+      b = pickW(b, [](W &q) { return q.kind == K_OWNED; });
+      if (a < 0 || b < 0 || a == b)
+        break;
+      std::vector<T> moved = w[b].expect;
+      ownerChanged(a);
+      ownerChanged(b);
+      if (kind == OA_MOVE_ASSIGN) {
+        *w[a].oa = std::move(*w[b].oa);
+      } else {
+        w[a].clear();
+        w[a].kind = K_OWNED;
+        w[a].alive = true;
+        w[a].oa.reset(new OwnedArray<T>(std::move(*w[b].oa)));
+      }
+      W &x = w[a], &y = w[b];
+      x.expect = moved;
+      x.aliasSrc = -1;
+      x.dangling = false;
+      x.copyOf = -1;
+      x.viewOf = -1;
+      {
+        OwnedArray<T> &Y = *y.oa;
+        const size_t n = Y.size();
+        PBT_ASSERT_MSG(n == 0 || n == moved.size(), "a moved-from OwnedArray reports size " << n << ", neither empty nor its old size " << moved.size());
+        std::vector<T> now;
+        for (size_t k = 0; k < n; ++k)
+          now.push_back(Y.at(k));
+        PBT_ASSERT_MSG(n == 0 || x.oa->size() == 0 || Y.data() != x.oa->data(),
+            "after a move the source and the target OwnedArray share storage: data() of both is the same address, size " << n);
+        y.expect = now;
+        y.copyOf = -1;
+      }
+      ntCopyOutlives = true;  // the source of a move outlives it and is read again
+      ctx.label(kind == OA_MOVE_ASSIGN ? "move-assign from a named OwnedArray" : "move-construct from a named OwnedArray");
+      break;
+    }
     case W_COPY_ASSIGN: {
       if (!w[a].alive || !w[b].alive || w[a].kind != w[b].kind || w[b].dangling)
         break;
@@ -790,7 +836,7 @@ static void register_properties()
   pbt::property<std::vector<Op>>("fixedarray_alloc_failure", 1500, pbt::vec(pbt::genOp(5, 1, 8, 8), 16), fixedarray_alloc_failure);
   auto ops = pbt::vec(pbt::genOpWeighted({{3, SRC_NEW}, {1, SRC_DESTROY}, {2, SRC_OVERWRITE}, {5, W_CTOR_FROM_SRC}, {1, W_CTOR_DEFAULT},
                                              {3, W_ASSIGN_FROM_SRC}, {1, W_RESET}, {2, W_RESET_PTR}, {4, OA_RESIZE}, {5, W_COPY_CTOR},
-                                             {3, W_COPY_ASSIGN}, {3, W_DESTROY}, {4, FV_MAKE}, {2, FA_SIZED}},
+                                             {3, W_COPY_ASSIGN}, {3, W_DESTROY}, {4, FV_MAKE}, {2, FA_SIZED}, {2, OA_MOVE_ASSIGN}, {1, OA_MOVE_CTOR}},
                           14, 20, 131),
       40);
   pbt::property<std::vector<Op>>("arrays_u8", 1500, ops, arrays_case<uint8_t>);
